@@ -8,6 +8,7 @@ from .. import behave as BH
 from .. import gen as G
 from .. import model as M
 from .. import shapes as S
+from .. import twin as TW
 from ..common import Check, digest, log, rng_for
 
 PROP = "C03"
@@ -180,4 +181,9 @@ def main(tier, seed, scale=1.0):
             log("C03: binary %s exited with %s: %s" % (b, rc, err[-500:]))
         for c in cases:
             judge(chk, c, obs, dropped)
+    # differential family: parameter-free requests over std field types against std's derives
+    tw = TW.cases(seed, PROP, max(40, n // 4), "ord")
+    obs, dropped, crashed, _, _ = BH.execute("c03w", tw)
+    for c in tw:
+        TW.judge(chk, c, obs, dropped, "ordering")
     return chk.finish()
